@@ -315,13 +315,13 @@ Section Input.
 
   (* step 2 (merge by source node): correct exactly when every merge group has one source variable (guard D3) *)
   Lemma merge_sum ges :
-    forallb (fun p : string * list gedge => forallb (fun g => vid_eqb (gsrc g) (first_src (fst p) (snd p))) (snd p))
+    forallb (fun p : vid * list gedge => forallb (fun g => vid_eqb (gsrc g) (first_src (fst p) (snd p))) (snd p))
             (merge_groups ges) = true ->
     osum (map Mm (collect_from_edges ges)) = osum (map Gg ges).
   Proof.
     intros Hd3. unfold collect_from_edges. rewrite map_map.
-    rewrite <- (gsum_group_by String.eqb (fun g => vnode (gsrc g)) Gg ges). unfold gsum. fold (merge_groups ges).
-    pose proof (good_group_by String.eqb (fun g => vnode (gsrc g)) string_eqb_refl (fun _ => True) ges (fun _ _ => I)) as Hg.
+    rewrite <- (gsum_group_by vid_eqb merge_key Gg ges). unfold gsum. fold (merge_groups ges).
+    pose proof (good_group_by vid_eqb merge_key vid_eqb_refl (fun _ => True) ges (fun _ _ => I)) as Hg.
     fold (merge_groups ges) in Hg.
     induction Hg as [|[k vs] g [Hne Hall] Hg IH]; cbn [map osum]; [reflexivity|].
     cbn [forallb] in Hd3. apply andb_true_iff in Hd3. destruct Hd3 as [Hd Hd3].
@@ -373,7 +373,7 @@ Lemma collect_aligned ges : Forall aligned_g ges -> Forall aligned_m (collect_fr
 Proof.
   intros Hal. unfold collect_from_edges, merge_groups.
   assert (Hal' : forall g, In g ges -> aligned_g g) by (apply Forall_forall; exact Hal).
-  pose proof (good_group_by String.eqb (fun g => vnode (gsrc g)) string_eqb_refl aligned_g ges Hal') as Hg.
+  pose proof (good_group_by vid_eqb merge_key vid_eqb_refl aligned_g ges Hal') as Hg.
   induction Hg as [|[k vs] g [Hne Hall] Hg IH]; cbn [map]; constructor; [|exact IH].
   cbn [snd] in *. unfold aligned_m, mk_merged. cbn [mtidx msidx mw snd].
   apply flat_aligned; [exact Hne|]. apply Forall_forall. intros g0 Hg0. rewrite Forall_forall in Hall.
@@ -435,7 +435,7 @@ Qed.
 
 (* the sub-lemmas named in the design *)
 Theorem multi_source_sum : forall sv ges dflt, Forall aligned_g ges ->
-  forallb (fun p : string * list gedge => forallb (fun g => vid_eqb (gsrc g) (first_src (fst p) (snd p))) (snd p))
+  forallb (fun p : vid * list gedge => forallb (fun g => vid_eqb (gsrc g) (first_src (fst p) (snd p))) (snd p))
           (merge_groups ges) = true ->
   edge_value sv (collect_from_edges ges) dflt = osum (map (Gg sv) ges).
 Proof. intros. rewrite edge_value_sum by (apply collect_aligned; assumption). apply merge_sum. assumption. Qed.
@@ -592,21 +592,45 @@ Definition d3_state : vid -> Qc :=
   assoc_env [(("A", "sop", "x"), mkq 1 2); (("A", "sop", "z"), mkq 1 4); (("T", "top", "v"), mkq 1 8)] zero_env.
 
 Lemma d3_witness_values :
-  wf d3_witness = true /\ guard_names d3_witness = true /\ guard_labels d3_witness = true /\ guard_d3 d3_witness = false /\
+  wf d3_witness = true /\ guard_names d3_witness = true /\ guard_labels d3_witness = true /\ guard_d3 d3_witness = fixed_D3 /\
   oqc_eqb (deriv d3_witness d3_state (declared_env d3_witness) ("T", "top", "v")) (Some (mkq 13 8)) = true /\
-  oqc_eqb (deriv_impl d3_witness d3_state (declared_env d3_witness) ("T", "top", "v")) (Some (mkq 17 8)) = true.
+  oqc_eqb (deriv_impl d3_witness d3_state (declared_env d3_witness) ("T", "top", "v"))
+          (Some (if fixed_D3 then mkq 13 8 else mkq 17 8)) = true.
 Proof. vm_compute. repeat split; reflexivity. Qed.
 
-Lemma d3_refutes : exists n st pa v, wf n = true /\ guard_names n = true /\ guard_labels n = true /\
+(* as long as the model describes the code as it is (fixed_D3 = false) the full statement is refuted *)
+Lemma d3_refutes : fixed_D3 = false -> exists n st pa v, wf n = true /\ guard_names n = true /\ guard_labels n = true /\
   deriv_impl n st pa v <> deriv n st pa v.
 Proof.
-  exists d3_witness, d3_state, (declared_env d3_witness), ("T", "top", "v").
+  intros Hf. exists d3_witness, d3_state, (declared_env d3_witness), ("T", "top", "v").
   destruct d3_witness_values as (H1 & H2 & H3 & _ & H5 & H6). repeat split; try assumption.
-  intro Heq. rewrite Heq in H6.
-  assert (Hf : oqc_eqb (deriv d3_witness d3_state (declared_env d3_witness) ("T", "top", "v")) (Some (mkq 17 8)) = false)
+  rewrite Hf in H6. intro Heq. rewrite Heq in H6.
+  assert (Hn : oqc_eqb (deriv d3_witness d3_state (declared_env d3_witness) ("T", "top", "v")) (Some (mkq 17 8)) = false)
     by (vm_compute; reflexivity).
   congruence.
 Qed.
+
+(* with the repair (merge keyed by source node AND source variable) the D3 guard holds of every network ... *)
+Lemma d3_ok_when_fixed : fixed_D3 = true -> forall n v, d3_ok n v = true.
+Proof.
+  intros Hfix n v. unfold d3_ok.
+  pose proof (good_group_by vid_eqb merge_key vid_eqb_refl (fun _ => True) (group_edges (in_edges n v)) (fun _ _ => I)) as Hg.
+  fold (merge_groups (group_edges (in_edges n v))) in Hg.
+  induction Hg as [|[k vs] g [Hne Hall] Hg IH]; cbn [forallb]; [reflexivity|].
+  rewrite IH, andb_true_r. cbn [fst snd] in *.
+  assert (Hk : forall g0, In g0 vs -> gsrc g0 = k).
+  { intros g0 Hg0. rewrite Forall_forall in Hall. destruct (Hall g0 Hg0) as [He _].
+    unfold merge_key in He. rewrite Hfix in He. apply vid_eqb_eq in He. exact He. }
+  apply forallb_forall. intros g0 Hg0. apply vid_eqb_eq. rewrite (Hk g0 Hg0).
+  destruct vs as [|g1 vs]; [contradiction|]. cbn [first_src]. symmetry. apply Hk. left. reflexivity.
+Qed.
+
+Lemma guard_d3_when_fixed : fixed_D3 = true -> forall n, guard_d3 n = true.
+Proof. intros Hfix n. unfold guard_d3. apply forallb_forall. intros e _. apply d3_ok_when_fixed. exact Hfix. Qed.
+
+(* ... and the full statement follows (no D3 guard; the name-clash guards only delimit where the model is faithful) *)
+Theorem full_when_fixed : fixed_D3 = true -> forall n st pa v, deriv_impl n st pa v = deriv n st pa v.
+Proof. intros Hfix n. apply deriv_impl_is_deriv. apply guard_d3_when_fixed. exact Hfix. Qed.
 
 (* a non-trivial guard-satisfying network: hierarchy depth 1, three nodes, a same-node producer of T/top/a, two parallel
    edges A -> T/top/a, a third edge from another node (two source nodes -> multi-source sum), T/top/b unconnected *)
@@ -625,4 +649,346 @@ Lemma nonvac_values :
   oqc_eqb (deriv nonvac_net nonvac_state (declared_env nonvac_net) ("c2/T", "top", "v")) (Some (mkq 171 16)) = true /\
   oqc_eqb (deriv_impl nonvac_net nonvac_state (declared_env nonvac_net) ("c2/T", "top", "v")) (Some (mkq 171 16)) = true /\
   oqc_eqb (value nonvac_net nonvac_state (declared_env nonvac_net) ("c2/T", "top", "b")) (Some (mkq 4 1)) = true.
+Proof. vm_compute. repeat split; reflexivity. Qed.
+
+(* ============================================================================================ H. hierarchy *)
+(* An edge may be declared at any circuit level that contains both end points (with the path relative to that level).
+   `flatten` turns every choice into the same nodes and a permutation of the same edge list, and the denotation does not
+   depend on the order of the edge list. *)
+From Coq Require Import Permutation.
+
+Lemma osum_perm l l' : Permutation l l' -> osum l = osum l'.
+Proof.
+  induction 1; cbn [osum]; try congruence.
+  rewrite !olift2_plus_assoc. f_equal. apply olift2_plus_comm.
+Qed.
+
+Lemma filter_perm {A} (f : A -> bool) l l' : Permutation l l' -> Permutation (filter f l) (filter f l').
+Proof.
+  induction 1; cbn [filter].
+  - constructor.
+  - destruct (f x); [constructor|]; assumption.
+  - destruct (f x), (f y); try reflexivity. constructor.
+  - etransitivity; eassumption.
+Qed.
+
+Lemma input_spec_perm N E1 E2 pa sv v p : Permutation E1 E2 ->
+  input_spec {| nnodes := N; nedges := E1 |} pa sv v p = input_spec {| nnodes := N; nedges := E2 |} pa sv v p.
+Proof.
+  intros HP. unfold input_spec, in_edges. cbn [nedges].
+  pose proof (filter_perm (fun e => vid_eqb (etgt e) v) E1 E2 HP) as HF.
+  assert (Hs : osum (map (fun e => oscale (ew e) (sv (esrc e))) (filter (fun e => vid_eqb (etgt e) v) E1)) =
+               osum (map (fun e => oscale (ew e) (sv (esrc e))) (filter (fun e => vid_eqb (etgt e) v) E2)))
+    by (apply osum_perm, Permutation_map, HF).
+  destruct p as [|p0 p].
+  - destruct (filter (fun e => vid_eqb (etgt e) v) E1) eqn:F1; destruct (filter (fun e => vid_eqb (etgt e) v) E2) eqn:F2.
+    + reflexivity.
+    + apply Permutation_nil in HF. discriminate.
+    + symmetry in HF. apply Permutation_nil in HF. discriminate.
+    + rewrite Hs. reflexivity.
+  - rewrite Hs. reflexivity.
+Qed.
+
+Lemma value_with_edges_ext N E1 E2 st pa (inp1 inp2 : input_rule) :
+  (forall sv v p, inp1 sv v p = inp2 sv v p) ->
+  (forall sv1 sv2 v p, (forall u, sv1 u = sv2 u) -> inp2 sv1 v p = inp2 sv2 v p) ->
+  forall fuel v, value_with {| nnodes := N; nedges := E1 |} st pa inp1 fuel v =
+                 value_with {| nnodes := N; nedges := E2 |} st pa inp2 fuel v.
+Proof.
+  intros H12 Hext. induction fuel as [|f IH]; intros v; cbn [value_with]; [reflexivity|].
+  change (lookup {| nnodes := N; nedges := E1 |} v) with (lookup {| nnodes := N; nedges := E2 |} v).
+  destruct (lookup {| nnodes := N; nedges := E2 |} v) as [[[ops op] d]|]; [|reflexivity].
+  destruct v as [[nd o] x]. destruct (vk d); try reflexivity.
+  - rewrite H12. apply Hext. exact IH.
+  - destruct (find_eq op x false); cbn [obind]; [|reflexivity]. apply eval_ext. intros y. apply IH.
+Qed.
+
+(* the denotation does not depend on the order in which the edges are listed *)
+Theorem deriv_edge_order : forall N E1 E2, Permutation E1 E2 -> forall st pa v,
+  deriv {| nnodes := N; nedges := E1 |} st pa v = deriv {| nnodes := N; nedges := E2 |} st pa v.
+Proof.
+  intros N E1 E2 HP st pa v. unfold deriv, deriv_with.
+  change (lookup {| nnodes := N; nedges := E1 |} v) with (lookup {| nnodes := N; nedges := E2 |} v).
+  destruct (lookup {| nnodes := N; nedges := E2 |} v) as [[[ops op] d]|]; [|reflexivity].
+  destruct v as [[nd o] x]. destruct (find_eq op x true); cbn [obind]; [|reflexivity].
+  apply eval_ext. intros y.
+  change (fuel_of {| nnodes := N; nedges := E1 |}) with (fuel_of {| nnodes := N; nedges := E2 |}).
+  apply value_with_edges_ext.
+  - intros. apply input_spec_perm. exact HP.
+  - intros. apply input_spec_ext. assumption.
+Qed.
+
+(* two circuit templates are equivalent when, under every prefix, they flatten to the same nodes and the same edges up to order *)
+Definition cequiv (c1 c2 : circuit) : Prop :=
+  forall pre, flat_nodes pre c1 = flat_nodes pre c2 /\ Permutation (flat_edges pre c1) (flat_edges pre c2).
+
+Theorem cequiv_deriv c1 c2 : cequiv c1 c2 -> forall st pa v, deriv (flatten c1) st pa v = deriv (flatten c2) st pa v.
+Proof.
+  intros H st pa v. destruct (H ""%string) as [Hn He]. unfold flatten. rewrite Hn. apply deriv_edge_order. exact He.
+Qed.
+
+Definition subs_nodes (pre : string) (l : list (string * circuit)) : list (string * list oper) :=
+  flat_map (fun p => flat_nodes (pre ++ fst p ++ "/") (snd p)) l.
+Definition subs_edges (pre : string) (l : list (string * circuit)) : list edge :=
+  flat_map (fun p => flat_edges (pre ++ fst p ++ "/") (snd p)) l.
+
+Lemma flat_nodes_eq pre ns subs es :
+  flat_nodes pre (Circ ns subs es) =
+  (map (fun nd : tnode => ((pre ++ fst nd)%string, map inst (snd nd))) ns ++ subs_nodes pre subs)%list.
+Proof.
+  cbn [flat_nodes]. f_equal. unfold subs_nodes. induction subs as [|[sn sc] l IH]; [reflexivity|].
+  cbn [flat_map fst snd]. rewrite <- IH. reflexivity.
+Qed.
+Lemma flat_edges_eq pre ns subs es :
+  flat_edges pre (Circ ns subs es) = (map (pedge pre) es ++ subs_edges pre subs)%list.
+Proof.
+  cbn [flat_edges]. f_equal. unfold subs_edges. induction subs as [|[sn sc] l IH]; [reflexivity|].
+  cbn [flat_map fst snd]. rewrite <- IH. reflexivity.
+Qed.
+
+Lemma str_app_assoc (a b c : string) : ((a ++ b) ++ c)%string = (a ++ (b ++ c))%string.
+Proof. induction a as [|ch a IH]; cbn; [reflexivity | rewrite IH; reflexivity]. Qed.
+
+Lemma pedge_pedge pre q e : pedge pre (pedge q e) = pedge (pre ++ q) e.
+Proof.
+  unfold pedge. cbn [esrc etgt ew]. destruct (esrc e) as [[n1 o1] x1], (etgt e) as [[n2 o2] x2].
+  cbn [pvid]. rewrite !str_app_assoc. reflexivity.
+Qed.
+
+(* hoisting: an edge declared inside the sub-circuit `sn` may equally be declared one level up as `sn/...` *)
+Theorem hoist_edge : forall ns l1 sn ns' subs' e es' l2 es,
+  cequiv (Circ ns (l1 ++ (sn, Circ ns' subs' (e :: es')) :: l2) es)
+         (Circ ns (l1 ++ (sn, Circ ns' subs' es') :: l2) (pedge (sn ++ "/") e :: es)).
+Proof.
+  intros. intro pre. split.
+  - rewrite !flat_nodes_eq. f_equal. unfold subs_nodes. rewrite !flat_map_app. cbn [flat_map fst snd].
+    rewrite !flat_nodes_eq. reflexivity.
+  - rewrite !flat_edges_eq. unfold subs_edges. rewrite !flat_map_app. cbn [flat_map fst snd map].
+    rewrite !flat_edges_eq. cbn [map]. rewrite pedge_pedge. rewrite <- str_app_assoc.
+    set (x := pedge ((pre ++ sn) ++ "/") e).
+    rewrite <- !app_assoc. cbn [app].
+    etransitivity.
+    { apply Permutation_app_head. symmetry. apply Permutation_middle. }
+    symmetry. apply Permutation_middle.
+Qed.
+
+(* equivalence is preserved by every context: replacing a sub-circuit by an equivalent one *)
+Theorem cequiv_context : forall ns l1 sn c1 c2 l2 es, cequiv c1 c2 ->
+  cequiv (Circ ns (l1 ++ (sn, c1) :: l2) es) (Circ ns (l1 ++ (sn, c2) :: l2) es).
+Proof.
+  intros ns l1 sn c1 c2 l2 es H pre. destruct (H (pre ++ sn ++ "/")%string) as [Hn He]. split.
+  - rewrite !flat_nodes_eq. f_equal. unfold subs_nodes. rewrite !flat_map_app. cbn [flat_map fst snd]. rewrite Hn. reflexivity.
+  - rewrite !flat_edges_eq. unfold subs_edges. rewrite !flat_map_app. cbn [flat_map fst snd].
+    apply Permutation_app_head. apply Permutation_app_head. apply Permutation_app_tail. exact He.
+Qed.
+
+Lemma cequiv_refl c : cequiv c c.
+Proof. intro pre. split; reflexivity. Qed.
+Lemma cequiv_trans c1 c2 c3 : cequiv c1 c2 -> cequiv c2 c3 -> cequiv c1 c3.
+Proof.
+  intros H1 H2 pre. destruct (H1 pre) as [a b], (H2 pre) as [c d]. split; [congruence | etransitivity; eassumption].
+Qed.
+Lemma cequiv_sym c1 c2 : cequiv c1 c2 -> cequiv c2 c1.
+Proof. intros H pre. destruct (H pre) as [a b]. split; [congruence | symmetry; exact b]. Qed.
+
+(* declaration order of the edges of one circuit level is irrelevant as well *)
+Theorem cequiv_edge_order : forall ns subs es es', Permutation es es' -> cequiv (Circ ns subs es) (Circ ns subs es').
+Proof.
+  intros ns subs es es' HP pre. split; [rewrite !flat_nodes_eq; reflexivity|].
+  rewrite !flat_edges_eq. apply Permutation_app_tail. apply Permutation_map. exact HP.
+Qed.
+
+(* ============================================================================================ I. evaluation order *)
+(* _sort_var_updates produces a permutation of the updates in which no update reads the left-hand side of an update
+   that comes at the same or a later position (itself excepted) — a topological order of the dependencies —, and running
+   the assignments in such an order leaves a memory in which EVERY assigned variable equals its defining expression
+   evaluated in that same memory (no stale read). *)
+Section SortProofs.
+  Variable A : Type.
+  Variable lhs_of : A -> string.
+  Variable deps_of : A -> list string.
+  Let dep := dependent A lhs_of deps_of.
+  Let pass := sort_pass A lhs_of deps_of.
+  Let srt := sort_updates A lhs_of deps_of.
+
+  Fixpoint topo_from (out : list A) (later : list string) : Prop :=
+    match out with
+    | [] => True
+    | q :: r => dep q (map lhs_of (q :: r) ++ later) = false /\ topo_from r later
+    end.
+
+  Lemma memb_In x l : memb x l = true <-> In x l.
+  Proof.
+    unfold memb. rewrite existsb_exists. split.
+    - intros [y [Hy He]]. apply String.eqb_eq in He. subst. exact Hy.
+    - intros H. exists x. split; [exact H | apply String.eqb_refl].
+  Qed.
+
+  Lemma dependent_mono q big small : dep q big = false ->
+    (forall i, In i small -> i = lhs_of q \/ In i big) -> dep q small = false.
+  Proof.
+    intros Hb Hsub. destruct (dep q small) eqn:E; [|reflexivity]. exfalso.
+    unfold dep, dependent in *. apply existsb_exists in E. destruct E as [i [Hi Hf]].
+    apply andb_true_iff in Hf. destruct Hf as [Hm Hn]. apply memb_In in Hm.
+    apply negb_true_iff in Hn. destruct (Hsub i Hm) as [Heq|Hin].
+    - subst. rewrite String.eqb_refl in Hn. discriminate.
+    - assert (existsb (fun i0 => memb i0 big && negb (String.eqb i0 (lhs_of q))) (deps_of q) = true); [|congruence].
+      apply existsb_exists. exists i. split; [exact Hi|]. apply andb_true_iff. split; [apply memb_In; exact Hin|].
+      apply negb_true_iff. exact Hn.
+  Qed.
+
+  Lemma remove1_incl x l : incl (remove1 x l) l.
+  Proof.
+    induction l as [|y l IH]; cbn [remove1]; [apply incl_refl|].
+    destruct (String.eqb x y); [apply incl_tl, incl_refl|]. intros z [->|Hz]; [left; reflexivity | right; apply IH; exact Hz].
+  Qed.
+  Lemma remove1_keep x y l : In y l -> y <> x -> In y (remove1 x l).
+  Proof.
+    induction l as [|z l IH]; cbn [remove1]; intros Hin Hne; [contradiction|].
+    destruct (String.eqb x z) eqn:E.
+    - apply String.eqb_eq in E. subst. destruct Hin as [->|Hin]; [contradiction | exact Hin].
+    - destruct Hin as [->|Hin]; [left; reflexivity | right; apply IH; assumption].
+  Qed.
+
+  Lemma pass_spec : forall todo names e s nm, pass todo names = (e, s, nm) ->
+    NoDup (map lhs_of todo) -> incl (map lhs_of todo) names ->
+    Permutation todo (e ++ s) /\ incl nm names /\
+    (forall x, In x names -> ~ In x (map lhs_of e) -> In x nm) /\ topo_from e nm.
+  Proof.
+    induction todo as [|q r IH]; intros names e s nm H Hnd Hinc.
+    - cbn in H. inversion H; subst. repeat split; auto using incl_refl.
+    - cbn [map] in Hnd. inversion Hnd as [|? ? Hq Hnd']; subst.
+      assert (Hr : incl (map lhs_of r) names) by (intros x Hx; apply Hinc; right; exact Hx).
+      unfold pass in H. cbn [sort_pass] in H. fold pass in H. fold dep in H.
+      destruct (dep q names) eqn:D.
+      + destruct (pass r names) as [[e' s'] nm'] eqn:P. inversion H; subst e s nm.
+        destruct (IH names e' s' nm' P Hnd' Hr) as (Hp & Hi & Hk & Ht).
+        repeat split; auto. apply Permutation_cons_app. exact Hp.
+      + destruct (pass r (remove1 (lhs_of q) names)) as [[e' s'] nm'] eqn:P. inversion H; subst e s nm.
+        assert (Hr' : incl (map lhs_of r) (remove1 (lhs_of q) names)).
+        { intros x Hx. apply remove1_keep; [apply Hr; exact Hx|]. intro Heq. subst. contradiction. }
+        destruct (IH _ e' s' nm' P Hnd' Hr') as (Hp & Hi & Hk & Ht).
+        assert (Hnm : incl nm' names) by (intros x Hx; apply (remove1_incl (lhs_of q)), Hi, Hx).
+        repeat split.
+        * cbn [app]. constructor. exact Hp.
+        * exact Hnm.
+        * intros x Hx Hne. cbn [map] in Hne. apply Hk.
+          -- apply remove1_keep; [exact Hx|]. intro Heq. apply Hne. left. symmetry. exact Heq.
+          -- intro Hin. apply Hne. right. exact Hin.
+        * apply (dependent_mono q names); [exact D|]. intros i Hi'. cbn [map app] in Hi'.
+          destruct Hi' as [<-|Hi']; [left; reflexivity|]. right. apply in_app_or in Hi'. destruct Hi' as [Hi'|Hi'].
+          -- apply Hr. apply in_map_iff in Hi'. destruct Hi' as [a [<- Ha]]. apply in_map.
+             apply (Permutation_in a (Permutation_sym Hp)). apply in_or_app. left. exact Ha.
+          -- apply Hnm. exact Hi'.
+        * exact Ht.
+  Qed.
+
+  Lemma NoDup_app_disjoint {B} (l1 l2 : list B) x : NoDup (l1 ++ l2) -> In x l1 -> ~ In x l2.
+  Proof.
+    induction l1 as [|a l1 IH]; cbn [app]; intros Hnd Hin; [contradiction|].
+    inversion Hnd as [|? ? Ha Hnd']; subst. destruct Hin as [->|Hin].
+    - intro H2. apply Ha. apply in_or_app. right. exact H2.
+    - apply IH; assumption.
+  Qed.
+
+  Lemma NoDup_app_tail {B} (l1 l2 : list B) : NoDup (l1 ++ l2) -> NoDup l2.
+  Proof. induction l1 as [|a l1 IH]; cbn [app]; intros H; [exact H|]. inversion H; subst. apply IH. assumption. Qed.
+
+  Lemma topo_app : forall e later out', topo_from e later -> incl (map lhs_of out') later -> topo_from out' [] ->
+    topo_from (e ++ out') [].
+  Proof.
+    induction e as [|q r IH]; intros later out' Ht Hinc Ho; cbn [app]; [exact Ho|].
+    cbn [topo_from] in Ht. destruct Ht as [Hd Ht]. cbn [topo_from]. split; [|apply (IH later); assumption].
+    apply (dependent_mono q (map lhs_of (q :: r) ++ later)); [exact Hd|].
+    intros i Hi. rewrite app_nil_r in Hi. cbn [map] in Hi. destruct Hi as [<-|Hi]; [left; reflexivity|]. right.
+    rewrite map_app in Hi. apply in_app_or in Hi. cbn [map]. destruct Hi as [Hi|Hi].
+    - right. apply in_or_app. left. exact Hi.
+    - right. apply in_or_app. right. apply Hinc. exact Hi.
+  Qed.
+
+  Theorem sort_spec : forall fuel rem out, srt fuel rem = (out, true) -> NoDup (map lhs_of rem) ->
+    Permutation rem out /\ topo_from out [].
+  Proof.
+    induction fuel as [|f IH]; intros rem out H Hnd; destruct rem as [|a r].
+    - inversion H. split; constructor.
+    - inversion H.
+    - inversion H. split; constructor.
+    - unfold srt in H. cbn [sort_updates] in H. fold srt in H. fold pass in H.
+      destruct (pass (a :: r) (map lhs_of (a :: r))) as [[e s] nm] eqn:P.
+      destruct (List.length s =? List.length (a :: r))%nat; [inversion H|].
+      destruct (srt f s) as [out' ok] eqn:S. inversion H; subst out ok.
+      destruct (pass_spec _ _ _ _ _ P Hnd (incl_refl _)) as (Hp & Hi & Hk & Ht).
+      assert (Hnd2 : NoDup (map lhs_of e ++ map lhs_of s)).
+      { rewrite <- map_app. apply (Permutation_NoDup (Permutation_map lhs_of Hp)). exact Hnd. }
+      destruct (IH s out' S (NoDup_app_tail _ _ Hnd2)) as (Hp' & Ht').
+      split.
+      + etransitivity; [exact Hp|]. apply Permutation_app_head. exact Hp'.
+      + apply (topo_app e nm); [exact Ht | | exact Ht'].
+        intros x Hx. assert (Hxs : In x (map lhs_of s)).
+        { apply (Permutation_in x (Permutation_map lhs_of (Permutation_sym Hp'))). exact Hx. }
+        apply Hk.
+        * apply (Permutation_in x (Permutation_map lhs_of (Permutation_sym Hp))). rewrite map_app. apply in_or_app. right. exact Hxs.
+        * intro Hxe. exact (NoDup_app_disjoint _ _ x Hnd2 Hxe Hxs).
+  Qed.
+End SortProofs.
+
+Lemma run_unassigned : forall prog env x, ~ In x (map fst prog) -> run_assigns prog env x = env x.
+Proof.
+  induction prog as [|[y e] r IH]; intros env x Hn; cbn [run_assigns]; [reflexivity|].
+  cbn [map fst] in Hn. rewrite IH by (intro H; apply Hn; right; exact H).
+  unfold set_env. destruct (String.eqb x y) eqn:E; [|reflexivity].
+  apply String.eqb_eq in E. subst. exfalso. apply Hn. left. reflexivity.
+Qed.
+
+Definition adeps (p : assign) : list string := fv (snd p).
+
+Theorem run_solves : forall prog env, NoDup (map fst prog) ->
+  (forall p, In p prog -> ~ In (fst p) (fv (snd p))) ->
+  topo_from assign fst adeps prog [] ->
+  forall p, In p prog -> run_assigns prog env (fst p) = eval (run_assigns prog env) (snd p).
+Proof.
+  induction prog as [|[x e] r IH]; intros env Hnd Hself Ht p Hp; [contradiction|].
+  cbn [map fst] in Hnd. inversion Hnd as [|? ? Hx Hnd']; subst.
+  cbn [topo_from] in Ht. destruct Ht as [Hd Ht]. cbn [run_assigns].
+  destruct Hp as [<-|Hp].
+  - cbn [fst snd].
+    assert (Hfree : forall y, In y (fv e) -> ~ In y (x :: map fst r)).
+    { intros y Hy Hin. apply not_true_iff_false in Hd. apply Hd. unfold dependent.
+      apply existsb_exists. exists y. split; [exact Hy|]. apply andb_true_iff. split.
+      - apply memb_In. rewrite app_nil_r. exact Hin.
+      - apply negb_true_iff. cbn [fst]. destruct (String.eqb y x) eqn:E; [|reflexivity].
+        apply String.eqb_eq in E. subst. exfalso. apply (Hself (x, e)); [left; reflexivity | exact Hy]. }
+    rewrite run_unassigned by exact Hx. unfold set_env at 1. rewrite String.eqb_refl.
+    apply eval_ext_fv. intros y Hy. rewrite run_unassigned by (intro H; apply (Hfree y Hy); right; exact H).
+    unfold set_env. destruct (String.eqb y x) eqn:E; [|reflexivity].
+    apply String.eqb_eq in E. subst. exfalso. apply (Hfree x Hy). left. reflexivity.
+  - apply IH; auto. intros p' Hp'. apply Hself. right. exact Hp'.
+Qed.
+
+(* the order chosen by _sort_var_updates solves the algebraic equations: after running the sorted assignments, every
+   assigned variable equals its defining expression evaluated in the final memory, and nothing else was touched *)
+Theorem sorted_run_solves : forall prog out env, sort_assigns prog = (out, true) -> NoDup (map fst prog) ->
+  (forall p, In p prog -> ~ In (fst p) (fv (snd p))) ->
+  Permutation prog out /\
+  (forall p, In p prog -> run_assigns out env (fst p) = eval (run_assigns out env) (snd p)) /\
+  (forall x, ~ In x (map fst prog) -> run_assigns out env x = env x).
+Proof.
+  intros prog out env Hs Hnd Hself. unfold sort_assigns in Hs.
+  destruct (sort_spec assign fst adeps _ _ _ Hs Hnd) as [Hp Ht]. split; [exact Hp|]. split.
+  - intros p Hin. apply run_solves.
+    + apply (Permutation_NoDup (Permutation_map fst Hp)). exact Hnd.
+    + intros p' Hp'. apply Hself. apply (Permutation_in p' (Permutation_sym Hp)). exact Hp'.
+    + exact Ht.
+    + apply (Permutation_in p Hp). exact Hin.
+  - intros x Hx. apply run_unassigned. intro H. apply Hx.
+    apply (Permutation_in x (Permutation_map fst (Permutation_sym Hp))). exact H.
+Qed.
+
+(* non-vacuity of the sort: declaration order r = 2*m ; m = k + a ; z = r*m  is reordered to m, r, z *)
+Example sort_example :
+  map fst (fst (sort_assigns [("r", EMul (ECst (Q2Qc 2)) (EVar "m")); ("z", EMul (EVar "r") (EVar "m"));
+                              ("m", EAdd (EVar "k") (EVar "a"))]%string)) = ["m"; "r"; "z"]%string
+  /\ snd (sort_assigns [("r", EMul (ECst (Q2Qc 2)) (EVar "m")); ("z", EMul (EVar "r") (EVar "m"));
+                        ("m", EAdd (EVar "k") (EVar "a"))]%string) = true
+  /\ snd (sort_assigns [("r", EVar "m"); ("m", EVar "r")]%string) = false.
 Proof. vm_compute. repeat split; reflexivity. Qed.
